@@ -79,18 +79,25 @@ class IndicatorResourceUtilization(Indicator):
         self.name = f"Utilization ({self.resource.name})"
         self.bounds = (0, 100)
 
+        # the busy intervals of a cumulative worker are held by its elementary workers,
+        # its capacity is the horizon times its size
+        if isinstance(self.resource, CumulativeWorker):
+            workers = self.resource._cumulative_workers
+        else:
+            workers = [self.resource]
         durations = [
             interv_up - interv_low
-            for interv_low, interv_up in self.resource._busy_intervals.values()
+            for worker in workers
+            for interv_low, interv_up in worker._busy_intervals.values()
         ]
 
         predefined_horiz = processscheduler.base.active_problem.horizon
         z3_var_horiz = processscheduler.base.active_problem._horizon  # the z3 var
 
         if predefined_horiz is not None:
-            expression = (z3.Sum(durations) * 100) / predefined_horiz
+            expression = (z3.Sum(durations) * 100) / (predefined_horiz * len(workers))
         else:
-            expression = (z3.Sum(durations) * 100) / z3_var_horiz
+            expression = (z3.Sum(durations) * 100) / (z3_var_horiz * len(workers))
 
         self.append_z3_assertion(self._indicator_variable == expression)
 
